@@ -69,6 +69,15 @@ func (p c02) Gen(t *Tape, tier string, run int) interface{} {
 	c.EOFD = t.Bool("work")
 	c.Delay = t.Pick("work", 0, 0, 1, 2)
 	c.Stmt = t.Chance("work", 1, 4) && total <= 8192
+	if p.cached {
+		// cached runs execute the history twice and already yield at every
+		// statement of bgzf/cache: keep the bgzf-wide yields for small inputs
+		c.Stmt = c.Stmt && total <= 2500 && t.Chance("work", 1, 2)
+	}
+	if c.Stmt {
+		c.Kind = "read+seek"
+		c.Chunk = t.Pick("work", 0, 2)
+	}
 	if p.cached && total > 2048 {
 		// statement-level yields make cached runs expensive: no
 		// byte-granular disk access on larger files
